@@ -138,6 +138,20 @@ def rule_separator(ctx):
                 if a["k"] == "Lit":
                     rsep = a["value"]
         ctx.check(R, "lifting/reader-separator", rsep is not None and seps == {rsep}, "reader splits at %r, writer uses %s" % (rsep, sorted(seps)), site(LI, rd))
+    # the reader is the only place of the lifting that turns a source string into a name
+    nfs = 0
+    for q, f in fns_in_file(LI):
+        if not f.get("body") or "tests" in q:
+            continue
+        for c in walk(f["body"]):
+            if c["k"] == "Call" and c["func"]["k"] == "Path" and re.search(r"(^|::)VariableName::from_string$", c["func"]["path"]):
+                nfs += 1
+                inside = rd is not None and f is rd
+                ctx.check(R, "lifting/%s/name-built-by-the-suffix-reader" % (q.replace(" ", "") + "::" + f["name"]), inside, "VariableName::from_string(..) in the lifting %s: a renamed variable (`n.0`) must go through String::try_lift, which splits the suffix off - otherwise the use refers to a variable nobody declared" % ("(the reader itself)" if inside else "outside String::try_lift"), site(LI, c))
+            if c["k"] == "Path" and re.search(r"(^|::)VariableName::from_string$", c["path"]) and not any(x is c for cc in walk(f["body"]) if cc["k"] == "Call" for x in [cc["func"]]):
+                nfs += 1
+                ctx.bad(R, "lifting/%s/name-built-by-the-suffix-reader" % (q.replace(" ", "") + "::" + f["name"]), "VariableName::from_string used as a function value in the lifting", site(LI, c))
+    ctx.floor(R, "from_string sites in the lifting", nfs, 1)
     for s in seps:
         ctx.check(R, "unique_vars/separator-outside-identifier-alphabet", s not in chars, "separator %r, identifier regex %s" % (s, rx), UV)
     c14.rule_keys(ctx, R)
@@ -167,6 +181,17 @@ def rule_shadowing(ctx):
         ca = [fact_str(c) for c in (conditions_to(body, add[0]) or []) if c[0] != "arm"]
         ctx.check(R, "Declaration/always-recorded", not ca, "add_declaration under %s" % ca, site(UV, add[0]))
         ctx.check(R, "Declaration/recorded-under-the-source-name", render(strip(add[0]["args"][0])) == "name" and line_of(add[0]) <= min([line_of(a) for a in walk(body) if a["k"] == "Assign" and render(a["l"]).replace(" ", "") == "*name"] or [10 ** 9]), "the declaration is recorded under the name as written, before the renaming", site(UV, add[0]))
+        # the size expressions of `var n[n]` still see the outer `n`: they are renamed before the new name is recorded
+        binds, _rest = a10.pattern_bindings(arm[0]["pat"])
+        dn = binds.get("dimensions")
+        if not dn or dn == "<pattern>":
+            ctx.bad(R, "Declaration/sizes-renamed-before-the-name-is-recorded", "the dimensions are not bound in the Declaration arm", site(UV, arm[0]))
+        else:
+            reach = a10.alias_closure(body, dn)
+            vis = [c for c in calls(body, "visit_expression") if {p_["path"] for p_ in walk(c["args"][0]) if p_["k"] == "Path"} & reach] if True else []
+            vis += [m for m in walk(body) if m["k"] == "MethodCall" and m["method"] in ("for_each", "map") and {p_["path"] for p_ in walk(m["recv"]) if p_["k"] == "Path"} & reach and "visit_expression" in render(m)]
+            late = [v for v in vis if line_of(v) >= line_of(add[0])]
+            ctx.check(R, "Declaration/sizes-renamed-before-the-name-is-recorded", bool(vis) and not late, "size expressions visited at %s, name recorded at line %s: a size that mentions the declared name (`var n[n]`) would resolve to the variable being declared" % ([line_of(v) for v in vis], line_of(add[0])), site(UV, arm[0]))
     # build_report: primary = new declaration, secondary = shadowed one
     br = find_fn(UV, "build_report")
     if br is not None:
